@@ -28,30 +28,22 @@ def call_site_counts(prog, crate):
     return _SITES[key]
 
 
-def _shift(j, loff, boff):
-    """shift local indices of every place and block indices of every terminator target in a JSON fragment (in place)"""
-    if isinstance(j, dict):
-        if "l" in j and isinstance(j["l"], int) and not isinstance(j["l"], bool):
-            j["l"] += loff
-            for e in j.get("p", []) or []:
-                if isinstance(e, dict) and "idx" in e and isinstance(e["idx"], int):
-                    e["idx"] += loff
-                elif isinstance(e, dict):
-                    _shift(e, loff, boff)
-            return
-        for k, v in j.items():
-            if k in ("goto", "otherwise", "target") and isinstance(v, int) and not isinstance(v, bool):
-                j[k] = v + boff
-            elif k == "targets" and isinstance(v, list):
-                j[k] = [[a, b + boff] for a, b in v]
-            else:
-                _shift(v, loff, boff)
-    elif isinstance(j, list):
-        for x in j:
-            _shift(x, loff, boff)
+from .normalize import shift as _shift  # noqa: E402
 
 
-def expand(prog, fn, max_depth=3, max_blocks=400):
+def effectively_pub(prog, h):
+    """`pub` and reachable from outside the crate: a `pub fn` in an inherent impl of a type that is not itself `pub` is private in effect"""
+    if h.j.get("vis") != "pub":
+        return False
+    st = h.j.get("self_ty")
+    if st and not h.j.get("trait_impl"):
+        a = prog.adt(h.crate, st)
+        if a is not None and a.get("vis") not in (None, "pub"):
+            return False
+    return True
+
+
+def expand(prog, fn, max_depth=48, max_blocks=400, keep=()):
     """-> Fn with single-call-site private helpers inlined (the same object when nothing is inlined)"""
     crate = fn.crate
     counts = call_site_counts(prog, crate)
@@ -67,11 +59,11 @@ def expand(prog, fn, max_depth=3, max_blocks=400):
         for b, c in call_sites(cur):
             cal = c.get("callee") or ""
             h = prog.get(crate, cal)
-            if h is None or h is fn or cal == fn.name or h.kind not in ("fn", "assoc"):
+            if h is None or h is fn or cal == fn.name or h.kind not in ("fn", "assoc") or cal in keep:
                 continue
             if c.get("via") not in ("direct", "trait_impl", "trait_default"):
                 continue
-            if h.j.get("vis") == "pub" or counts.get(cal, 0) != 1 or len(h.blocks) > max_blocks:
+            if effectively_pub(prog, h) or counts.get(cal, 0) != 1 or len(h.blocks) > max_blocks:
                 continue
             if any((cc.get("callee") or "") == cal for _, cc in call_sites(h)):
                 continue  # recursive
